@@ -7,13 +7,14 @@ from ..absint import Cls, Const, Fn, Foreign, Obj, Term, is_call, mentions, run_
 from ..model import Undecided, walk_no_nested
 
 EXPLANATION = (
-    "Per-instance lock discipline, decided on the enumerated paths of every sender. Role query: a coroutine under indi/transport that "
-    "awaits (or calls) an output operation (write/drain/flush) on the connection's stream, and the plain function that schedules it. "
-    "C19.LOCK: all output operations for one message lie inside one 'async with self.<lock>' block; <lock> is assigned in __init__ from "
-    "asyncio.Lock() on the instance (a class-level lock would couple connections); nothing is written outside a lock. C19.SERIALIZE: the "
-    "router-facing entry computes the payload synchronously (to_string() before create_task), creates exactly one task per message with "
-    "that payload, and the coroutine writes the payload with a single write call, unmodified. C19.NONBLOCK: the entry is a plain function "
-    "without await or blocking I/O. C19.SIBLING: the three senders (TCP server, TTY server, TCP client) agree on all of the above."
+    'Per-instance lock discipline, decided on the enumerated paths of every sender. Role query on interpreted paths: the plain method of a '
+    'transport class that hands a coroutine of the same class to create_task (the router-facing entry), and that coroutine, whose paths - with '
+    "private helpers inlined - perform an output operation (write/drain/flush) on the connection's stream; temporaries and helper methods in "
+    "between do not matter. C19.LOCK: all output operations for one message lie inside one 'async with self.<lock>' block; <lock> is assigned in "
+    '__init__ from asyncio.Lock() on the instance (a class-level lock would couple connections); nothing is written outside a lock. '
+    'C19.SERIALIZE: the router-facing entry computes the payload synchronously (to_string() before create_task), creates exactly one task per '
+    'message with that payload, and the coroutine writes the payload with a single write call, unmodified. C19.NONBLOCK: the entry is a plain '
+    'function without await or blocking I/O. C19.SIBLING: the three senders (TCP server, TTY server, TCP client) agree on all of the above.'
 )
 NOT_DECIDED = "exploration of the scheduler's choice points (replaced by: FIFO task start + fair lock, see assumptions)."
 ASSUMPTIONS = [
